@@ -175,10 +175,25 @@ Judge(e) ==
 
 Init == l = 1 /\ bad = 0
 
+(* C15, beyond "each path equals the reference": where the reference leaves a choice ("either"), the     *)
+(* paths must still make the SAME choice.  The harness runs the slice, buffered, incremental and         *)
+(* asynchronous readers of one typestate on one input back to back: wherever two consecutive runs both   *)
+(* produced a frame or an error at the same position, it is the same frame / the same code.  (Positions   *)
+(* where one of them is waiting for more input, or reports the source's end, are not comparable.)        *)
+Comparable(o) == o.res \in {"ok", "err"}
+SameEntry(x, y) ==
+  /\ x.res = y.res
+  /\ (x.res = "ok" => x.kind = y.kind /\ x.type = y.type /\ x.sid = y.sid /\ x.plen = y.plen /\ x.used = y.used)
+  /\ (x.res = "err" => x.code = y.code)
+AgreeTs(a, b) ==
+  (a.ev = "ts" /\ b.ev = "ts" /\ a.role = b.role /\ a.in = b.in /\ ~a.panic /\ ~b.panic) =>
+    \A k \in 1..(IF Len(a.out) < Len(b.out) THEN Len(a.out) ELSE Len(b.out)) :
+       (Comparable(a.out[k]) /\ Comparable(b.out[k])) => SameEntry(a.out[k], b.out[k])
+
 Next ==
   /\ l <= Len(Rec)
   /\ l' = l + 1
-  /\ IF Judge(Rec[l]) THEN bad' = bad
+  /\ IF Judge(Rec[l]) /\ (l = 1 \/ AgreeTs(Rec[l - 1], Rec[l])) THEN bad' = bad
      ELSE PrintT(<<"MISMATCH", l>>) /\ bad' = bad + 1
 
 Spec == Init /\ [][Next]_<<l, bad>>
